@@ -786,6 +786,39 @@ def huge_center_oracle(case, data, bb):
 
 
 
+def balance_cases(coq_cases, descr):
+    """Reorder the cases so that contiguous shards of equal numeral count (core.coq_eval_cases cuts the list by
+    numerals) also carry similar evaluation cost: vm_compute time of a mask case grows with pixels x subpixels^2,
+    not with its size in numerals."""
+    nb = core.NCPU
+    items = []
+    for i, (t, d) in enumerate(zip(coq_cases, descr)):
+        num = core.count_numerals(t)
+        cost = 1.0
+        if t.startswith('CMask'):
+            case = d[0]
+            s_eff = eff_sub(case)[2]
+            # numerals of the counts image ~ pixels (x2 shapes for annuli are evaluated separately)
+            pix = max(1, t.count(';') + 1)
+            cost = pix * s_eff * s_eff * (2 if case['fam'].endswith('annulus') else 1) * \
+                (1 if (case.get('exact_arith') and s_eff in POW2) else 3)
+        items.append((cost, num, i))
+    ctot = sum(c for c, _, _ in items) or 1.0
+    ntot = sum(n for _, n, _ in items) or 1.0
+    bins = [[0.0, 0.0, []] for _ in range(nb)]
+    for cost, num, i in sorted(items, key=lambda x: (-x[0], -x[1], x[2])):
+        if cost > 1.0:
+            b = min(bins, key=lambda b_: (b_[0] / ctot + 0.25 * b_[1] / ntot))
+        else:
+            b = min(bins, key=lambda b_: b_[1])
+        b[0] += cost
+        b[1] += num
+        b[2].append(i)
+    order = [i for b in bins for i in b[2]]
+    return [coq_cases[i] for i in order], [descr[i] for i in order]
+
+
+
 # =====================================================================================================
 # histories: parameters re-assigned after the caches (bbox, centred edges, extents, area) were filled
 # =====================================================================================================
@@ -1141,6 +1174,7 @@ def run(ctx):
         descr.append((dict(kind='from_float', args=[xs[0], xs[1], ys[0], ys[1]]), 'box'))
     ctx.stat('generator', 'box_algebra_cases', nb)
     # ---------------- K: evaluate the model in Coq ----------------
+    coq_cases, descr = balance_cases(coq_cases, descr)
     bad = ctx.coq_eval_cases(['C01_Model'], 'check_case', coq_cases, case_type='case', shard_numerals=4000)
     ctx.stat('coq', 'disagreements', len(bad))
     for i in bad[:12]:
